@@ -1,7 +1,7 @@
 SPECIFICATION Spec
 CONSTANTS
   MaxLen = 2
-  MaxPool = 5
+  MaxPool = 6
   Emit = TRUE
 INVARIANT ContentKept
 INVARIANT EmitState
